@@ -10,7 +10,7 @@ import lib
 PID = "C07"
 THEOREMS = ["Properties_C07.v", "Properties_C07_more.v"]
 # checks whose harnesses are re-run under the sanitizers (each rebuilds its harness through lib.build_cpp)
-SUBCHECKS = ["C01", "C05", "C10", "C12", "C13", "C14", "C15", "C16", "C17", "C18", "C03", "C09", "C20"]
+SUBCHECKS = ["C01", "C05", "C10", "C12", "C13", "C14", "C15", "C16", "C17", "C18", "C03", "C09", "C20", "C04"]
 
 
 def run_sub(pid, tier, seed, build, sanlog):
@@ -18,6 +18,7 @@ def run_sub(pid, tier, seed, build, sanlog):
         return pid, None, "no check module"
     env = dict(os.environ, VERIF_SANITIZE="asan", VERIF_BUILD=build, VERIF_SAN_LOG=sanlog, VERIF_SEED=str(seed))
     env["VERIF_C07_SUBRUN"] = "1"
+    env["VERIF_SANITIZE_MPI"] = "1"           # the MPI harness of C04 is rebuilt with the sanitizers as well (leak detection off: Open MPI's own allocations)
     try:
         p = subprocess.run([sys.executable, os.path.join(lib.ROOT, "tools", "check.py"), pid, "--tier", tier, "--seed", str(seed)],
                            cwd=lib.ROOT, env=env, capture_output=True, text=True, timeout=3000)
@@ -79,7 +80,7 @@ def check(tier, seed):
                     {"component": os.path.basename(r["cmd"][0]), "cmd": r["cmd"], "case": r["case"], "report": r["report"]}, True)
     return c.finish(
         assumptions=["runtime half is exploration, not proof: clang/gcc AddressSanitizer + UndefinedBehaviorSanitizer + LeakSanitizer semantics; uninitialised reads are not covered (no MSan runtime)",
-                     "MPI harnesses and the real-TBB harness are not rebuilt with sanitizers here (TSan run belongs to C03's thorough tier)"],
+                     "the MPI harness of C04 runs under ASan/UBSan with leak detection off (Open MPI keeps allocations until exit); the real-TBB harness is not rebuilt with ASan here (its TSan run belongs to C03's thorough tier)"],
         explanation="Theorems: the error values of the models (index out of range, missing key, queue update of an absent vertex, fuel, leaked spanner descriptor) are "
                     "unreachable on valid inputs. Runtime: every harness stream re-executed under ASan/UBSan/LSan; a report is replayable with the recorded case.")
 
